@@ -106,6 +106,8 @@ def build(prog):
     from PEPit.primitive_steps import proximal_step, inexact_gradient_step
     b = Built()
     pep = PEP()
+    if prog.get("_on_pep"):
+        prog["_on_pep"]()
     b.pep = pep
     b.held = {}          # name -> object the user holds
     kind, cls, kw = class_table()[prog["cls"]]
